@@ -55,6 +55,6 @@ def main():
     json.dump(man, open(os.path.join(os.path.dirname(os.path.abspath(__file__)), "MANIFEST.json"), "w"), indent=1)
     print("wrote MANIFEST.json with", len(checks), "checks")
 
-HOOK_COMMITS = []
+HOOK_COMMITS = ["c9b249b"]
 if __name__ == "__main__":
     main()
